@@ -113,6 +113,7 @@ func TestTry(t *testing.T) {
 	pr := runProgram(&progCase{Files: []string{string(src)}, XGo: os.Getenv("VERIF_XGO") != ""}, nil)
 	fmt.Println("source ok:", pr.Src.OK(), pr.Src.ErrText(5))
 	fmt.Println("accepted:", pr.Res.Accepted(), "| errors:", pr.Res.ErrText())
+	fmt.Println("build:", pr.Res.BuildDur, "write:", pr.Res.WriteDur)
 	if pr.Res.Stack != "" {
 		fmt.Println(firstLines(pr.Res.Stack, 40))
 	}
